@@ -158,14 +158,15 @@ def work(spec):
                     [e[1][:80] for e in r_["errors"][:3]], text),
                 "case": common.slim_case(case)})
             continue
-        if r_.get("stages", [1, 1]) != [1, 1]:
-            part["violations"].append({"signature": "verdict-depends-on-call-history:" + ("second-gen-differs" if r_["stages"][0] == 0 else "parse+gen-differs-from-compile"),
-                                       "message": "the same text through parse() + gen(): %s\n%s" % (
-                                           "generating code twice from one tree gives two different results" if r_["stages"][0] == 0
-                                           else "the result differs from compile()'s", text), "case": common.slim_case(case)})
+        if r_.get("stages", [1, 1])[0] != 1:
+            part["violations"].append({"signature": "verdict-depends-on-call-history:second-gen-differs",
+                                       "message": "the same text through parse() + gen(): generating code twice from one tree gives two different results\n" + text,
+                                       "case": common.slim_case(case)})
             continue
         if "stages" in r_:
             part["stats"]["parse-once-generate-twice-agree"] += 1
+            # (whether parse() + gen() equals compile() is only counted: no property relates the two entry points)
+            part["stats"]["parse+gen-equals-compile"] += r_["stages"][1]
         if not r_["ok"] and not r_["errors"]:
             part["violations"].append({"signature": "rejected-without-error", "message": "marked incorrect with an empty error list\n" + text,
                                        "case": common.slim_case(case)})
